@@ -13,13 +13,18 @@
 
 #define TIME_OK(t) ((t) >= -((int64_t)1 << 61) && (t) <= ((int64_t)1 << 61))
 
-size_t G_pops, G_sifts, G_sift_idx;
 #if !defined(HEAP_CONCRETE) && !defined(HEAP_SYMBOLIC)
 /* recording contracts that REPLACE the heap maintenance in the step proof (heap order itself: bounded proofs below) */
 void TimerService_heapPop_rec(TimerService *self)
 __CPROVER_requires(self->_heap.n > 0)
-__CPROVER_assigns(G_pops, self->_heap.n, self->_heap.front)
+__CPROVER_assigns(G_pops, self->_heap.n, self->_heap.front, G_M)
 __CPROVER_ensures(G_pops == __CPROVER_old(G_pops) + 1 && self->_heap.n == __CPROVER_old(self->_heap.n) - 1)
+/* ghost sum over the heap items (definition): the front item is removed; a sum of non-negative weights is >= 0 and >= any single term */
+__CPROVER_ensures(G_M == __CPROVER_old(G_M) - IORA_W(__CPROVER_old(self->_heap.front.tp)))
+__CPROVER_ensures(G_M >= 0 && (self->_heap.n > 0 ==> G_M >= IORA_W(self->_heap.front.tp)))
+/* instances, for the new front item, of the heap-side global invariants: INV_HR (witness id) and INV_U (at most one heap item per id: ids are never reused) */
+__CPROVER_ensures((self->_heap.n > 0 && self->_heap.front.id == GID && self->_records.present) ==> self->_heap.front.tp == self->_records.w.second.tp)
+__CPROVER_ensures(__CPROVER_old(self->_heap.front.id) == GID ==> !(self->_heap.n > 0 && self->_heap.front.id == GID))
 ;
 void TimerService_siftUp_rec(TimerService *self, size_t idx)
 __CPROVER_assigns(G_sifts, G_sift_idx)
@@ -38,7 +43,9 @@ __CPROVER_ensures(G_sifts == __CPROVER_old(G_sifts) + 1 && G_sift_idx == idx)
 void h_collect_step(void)
 {
   TimerService S; iora_hvec out; int64_t now = nondet_i64();
-  IORA_TRUE = 1; G_pops = 0; G_sifts = 0; G_rec_erases = 0; G_rec_emplaces = 0; G_per_erases = 0;
+  GID = nondet_u64();
+  IORA_TRUE = 1; G_pops = 0; G_sifts = 0; G_rec_erases = 0; G_rec_emplaces = 0; G_per_erases = 0; G_top_valid = 0; G_lr_found = 0; G_now = now;
+  __CPROVER_assume(G_M >= IORA_W(S._heap.front.tp) && G_M <= ((__int128)1 << 120));      /* ghost sum of the item weights (termination proof): at least the front item's weight */
   __CPROVER_assume(TIME_OK(now) && S._heap.n >= 1 && S._heap.n < ((size_t)1 << 60) && TIME_OK(S._heap.front.tp) && out.n < ((size_t)1 << 60));
   S._heap.pushes = 0;
   INV_STATE(S)
@@ -87,10 +94,55 @@ void h_collect_step(void)
 }
 
 /* ---------------------------------------------------------------------------------------------------------------- */
+/* the WHOLE loop of collectDueLocked: termination (loop variant G_M) for any heap size, any number of due / periodic timers */
+void h_collect_loop(void)
+{
+  TimerService S; iora_hvec out; int64_t now = nondet_i64();
+  GID = nondet_u64();
+  IORA_TRUE = 1; G_pops = 0; G_sifts = 0; G_rec_erases = 0; G_rec_emplaces = 0; G_per_erases = 0; G_top_valid = 0; G_lr_found = 0;
+  __CPROVER_assume(TIME_OK(now) && S._heap.n < ((size_t)1 << 60) && (S._heap.n == 0 || TIME_OK(S._heap.front.tp)));
+  G_now = now; G_n0 = S._heap.n;
+  __CPROVER_assume(G_M >= 0 && G_M <= ((__int128)1 << 120) && (S._heap.n == 0 || G_M >= IORA_W(S._heap.front.tp)));     /* G_M is the sum of the weights of the items */
+  INV_STATE(S)
+  __CPROVER_assume(!(S._records.present && S._periodicTimers.present) || S._periodicTimers.w.second.nextExecution == S._records.w.second.tp);       /* INV_PR (witness id) */
+  __CPROVER_assume(!(S._heap.n > 0 && S._heap.front.id == GID && S._records.present) || S._records.w.second.tp == S._heap.front.tp);                /* INV_HR (witness id) */
+  TimerService_collectDueLocked(&S, now, &out);
+  IORA_CANARY("h_collect_loop: returns");
+  /* T0 */ __CPROVER_assert(S._heap.n == 0 || S._heap.front.tp > now, "T0 collectDueLocked returns only when no heap item is due any more");
+  /* T1 */ __CPROVER_assert(G_M >= 0, "T1 the variant is bounded below");
+}
+
+/* ---------------------------------------------------------------------------------------------------------------- */
+/* establishment of INV_HR / INV_PR at the two schedule-side push sites (the third site, the re-arm, is D5): the statements that store a new
+ * timer use ONE time for the record, the heap item and (periodic) nextExecution, and ONE id. `id = ++_nextId` is fresh (trusted: ids never reused). */
+void h_store_sites(void)
+{
+  TimerService S; uint64_t id = nondet_u64(), h = nondet_u64(), fn = nondet_u64(); int64_t t = nondet_i64(), interval = nondet_i64();
+  GID = nondet_u64();
+  IORA_TRUE = 1; G_sifts = 0; G_now = t; G_M = 0; S._heap.pushes = 0;
+  __CPROVER_assume(S._heap.n < ((size_t)1 << 60) && TIME_OK(t));
+  __CPROVER_assume(id != GID || (!S._records.present && !S._periodicTimers.present));      /* fresh id */
+  const bool rp0 = S._records.present, pp0 = S._periodicTimers.present; const size_t n0 = S._heap.n;
+  if (nondet_bool()) {
+    TimerService_scheduleAtStore(&S, id, t, h);
+    IORA_CANARY("h_store_sites: scheduleAt");
+    /* E1 */ __CPROVER_assert(id != GID || (S._records.present && S._records.w.first == id && S._records.w.second.tp == t && !S._records.w.second.canceled && S._records.w.second.handler == h && !S._periodicTimers.present), "E1 scheduleAt stores a live record (time tp, this handler) under the new id");
+  } else {
+    TimerService_schedulePeriodicStore(&S, id, interval, t, fn, h);
+    IORA_CANARY("h_store_sites: schedulePeriodic");
+    /* E2 */ __CPROVER_assert(id != GID || (S._records.present && S._records.w.second.tp == t && !S._records.w.second.canceled && S._records.w.second.handler == h), "E2 schedulePeriodic stores a live record with the first deadline");
+    /* E3 */ __CPROVER_assert(id != GID || (S._periodicTimers.present && S._periodicTimers.w.first == id && S._periodicTimers.w.second.nextExecution == t && S._periodicTimers.w.second.interval == interval && !S._periodicTimers.w.second.canceled && S._periodicTimers.w.second.handler == fn), "E3 INV_PR established: nextExecution == the record's time; interval as given");
+  }
+  /* E4 */ __CPROVER_assert(S._heap.pushes == 1 && S._heap.n == n0 + 1 && S._heap.pushed.tp == t && S._heap.pushed.id == id && G_sifts == 1 && G_sift_idx == S._heap.n - 1, "E4 INV_HR established: exactly one heap item (same time, same id) is pushed and sifted up");
+  /* E5 */ __CPROVER_assert(id == GID || (S._records.present == rp0 && S._periodicTimers.present == pp0), "E5 frame: other ids are untouched");
+}
+
+/* ---------------------------------------------------------------------------------------------------------------- */
 void h_cancel(void)
 {
   TimerService S; uint64_t id = nondet_u64();
-  IORA_TRUE = 1; G_pokes = 0; G_rec_erases = 0; G_per_erases = 0; G_rec_emplaces = 0;
+  GID = nondet_u64();                                   /* witness id: arbitrary (plain harness: globals start at 0) */
+  IORA_TRUE = 1; G_pokes = 0; G_rec_erases = 0; G_per_erases = 0; G_rec_emplaces = 0; G_top_valid = 0; G_lr_found = 0;
   INV_STATE(S)
   const bool rp0 = S._records.present, pp0 = S._periodicTimers.present;
   const Record r0 = S._records.w.second; const PeriodicTimer p0 = S._periodicTimers.w.second;
@@ -157,7 +209,7 @@ HeapItem GX;   /* arbitrary witness value for the multiset clause */
 
 void h_heap_pop(void)
 {
-  TimerService S; IORA_TRUE = 1;
+  TimerService S; IORA_TRUE = 1; GX.tp = nondet_i64(); GX.id = nondet_u64();      /* witness value: arbitrary */
   __CPROVER_assume(S._heap.n <= HEAP_CAP && HEAP_OK(S));
   const size_t n0 = S._heap.n; const HeapItem min0 = S._heap.a[0]; const int c0 = COUNTX(S);
   TimerService_heapPop(&S);
@@ -170,7 +222,7 @@ void h_heap_pop(void)
 
 void h_heap_push(void)
 {
-  TimerService S; HeapItem x; IORA_TRUE = 1;
+  TimerService S; HeapItem x; IORA_TRUE = 1; GX.tp = nondet_i64(); GX.id = nondet_u64();
   __CPROVER_assume(S._heap.n < HEAP_CAP && HEAP_OK(S));
   const size_t n0 = S._heap.n; const int c0 = COUNTX(S);
   iora_heap_emplace_back(&S._heap, x);                       /* the two statements every schedule path performs */
@@ -202,7 +254,7 @@ void h_search(void)
 
 void h_heap_pop_u(void)
 {
-  TimerService S; size_t n = nondet_size_t(); IORA_TRUE = 1;
+  TimerService S; size_t n = nondet_size_t(); IORA_TRUE = 1; GI = nondet_size_t();      /* witness index: arbitrary */
   __CPROVER_assume(n >= 1 && n <= ((size_t)1 << 30) && GI <= ((size_t)1 << 31));
   S._heap.a = (HeapItem *)malloc(n * sizeof(HeapItem)); __CPROVER_assume(S._heap.a != NULL); S._heap.n = n; G_heap_cap = n;
   __CPROVER_assume(U_OKAT(GI, n) && U_OKAT(2 * GI + 1, n) && U_OKAT(2 * GI + 2, n));      /* three instances of "is a heap" */
@@ -214,7 +266,7 @@ void h_heap_pop_u(void)
 
 void h_heap_push_u(void)
 {
-  TimerService S; HeapItem x; size_t n = nondet_size_t(); IORA_TRUE = 1;
+  TimerService S; HeapItem x; size_t n = nondet_size_t(); IORA_TRUE = 1; GI = nondet_size_t();
   __CPROVER_assume(n <= ((size_t)1 << 30) && GI <= ((size_t)1 << 31));
   S._heap.a = (HeapItem *)malloc((n + 1) * sizeof(HeapItem)); __CPROVER_assume(S._heap.a != NULL); S._heap.n = n; G_heap_cap = n + 1;
   __CPROVER_assume(U_OKAT(GI, n) && U_OKAT(HPAR(GI), n));                                   /* two instances of "is a heap" */
